@@ -751,6 +751,8 @@ def rand_point(rng, kind='complex'):
         return mpf(u())
     if kind == 'pos':
         return mpf(rng.uniform(0.2, 3.0))
+    if kind == 'poswide':       # positive, log-uniform over six decades: |log x| large enough to cross branch cuts of x**(I*k)
+        return mpf(10) ** rng.uniform(-3, 3)
     if kind == 'unit':
         return mpf(rng.uniform(0.05, 0.95))
     if kind == 'neg':
